@@ -104,6 +104,12 @@ class DotGraphMachine:
 
         return actions
 
+    def _current_state(self):
+        if getattr(self.machine, "current_state_value", None) is None:
+            # an async machine that was not activated yet: there is no state to highlight
+            return None
+        return self.machine.current_state
+
     def _state_as_node(self, state):
         actions = self._state_actions(state)
 
@@ -116,7 +122,7 @@ class DotGraphMachine:
             fontsize=self.state_font_size,
             peripheries=2 if state.final else 1,
         )
-        if state == self.machine.current_state:
+        if state == self._current_state():
             node.set_penwidth(self.state_active_penwidth)
             node.set_fillcolor(self.state_active_fillcolor)
         else:
